@@ -36,8 +36,9 @@ def good_lists(k=0):
 
     import regions as R
     from regions import PixCoord
-    pix = [R.CirclePixelRegion(PixCoord(3, 4), 2.5 + k, meta={'label': 'c1'}),
-           R.RectanglePixelRegion(PixCoord(10, 12), 4, 2, angle=30 * u.deg, visual={'color': 'red'}),
+    # (sizes and angles that are not exact in single precision: the file holds what the serialiser produced, to the last bit)
+    pix = [R.CirclePixelRegion(PixCoord(3, 4.7), 2.3 + k, meta={'label': 'c1'}),
+           R.RectanglePixelRegion(PixCoord(10.1, 12), 4.1, 2.7, angle=30.1 * u.deg, visual={'color': 'red'}),
            R.PointPixelRegion(PixCoord(1, 1))]
     sky = [R.CircleSkyRegion(SkyCoord(10, 20, unit='deg'), (3 + k) * u.arcsec), R.EllipseSkyRegion(SkyCoord(11, 21, unit='deg'), 6 * u.arcsec, 3 * u.arcsec, angle=10 * u.deg)]
     return pix, sky
@@ -54,6 +55,10 @@ def failing_elements(fmt):
     out = [('compound', R.CompoundPixelRegion(a, b, operator.or_))]
     out.append(('unnamed-frame', R.CircleSkyRegion(SkyCoord(10, 20, unit='deg', frame='supergalactic'), 3 * u.arcsec)))
     out.append(('line', R.LinePixelRegion(PixCoord(0, 0), PixCoord(3, 3))))
+    # elements the serialiser skips with a warning: a failure when the caller has turned warnings into errors
+    out.append(('warning-as-error:compound', R.CompoundPixelRegion(a, b, operator.and_)))
+    out.append(('warning-as-error:sky', R.CircleSkyRegion(SkyCoord(10, 20, unit='deg'), 3 * u.arcsec)))
+    out.append(('warning-as-error:text', R.TextPixelRegion(PixCoord(2, 2), 'label')))
     return out
 
 
@@ -115,10 +120,13 @@ class Scratch:
         tlc.cleanup(self.d)
 
 
-def do_write(obj, path, fmt, ow, opts):
+def do_write(obj, path, fmt, ow, opts, strict=False, pathlike=False):
     try:
         with warnings.catch_warnings():
-            warnings.simplefilter('ignore')
+            warnings.simplefilter('error' if strict else 'ignore')       # strict: the caller turns warnings into errors
+            if pathlike:
+                import pathlib
+                path = pathlib.Path(path)
             obj.write(path, format=fmt, overwrite=ow, **opts)
         return 'ok'
     except OSError:
@@ -142,6 +150,8 @@ def run_case(ctx, sc, req, allowed, variant, rnd):
     from regions import Regions
     fmt, ow, ser, dest = req['fmt'], req['ow'], req['ser'], req['dest']
     content, via, optsel = req['content'], req['via'], req['opts']
+    pathlike = req['path'] == 'pathlike'
+    strict = False
     ext = EXT[fmt][variant % len(EXT[fmt])]
     pix, sky = good_lists()
     items = {'ds9': list(pix) + (list(sky) if variant % 2 else []), 'crtf': list(sky), 'fits': list(pix)}[fmt]
@@ -170,6 +180,7 @@ def run_case(ctx, sc, req, allowed, variant, rnd):
             items.insert(pos, el)
             single = el
             inject = f'{name}@{pos}'
+            strict = name.startswith('warning-as-error')
     elif optsel == 'given':
         opts = given_opts(fmt, variant)
     if how == 'Region':
@@ -178,7 +189,7 @@ def run_case(ctx, sc, req, allowed, variant, rnd):
     # does serialisation really fail for this list?  (the model takes it as a parameter)
     try:
         with warnings.catch_warnings():
-            warnings.simplefilter('ignore')
+            warnings.simplefilter('error' if strict else 'ignore')
             if fmt == 'fits' and 'header' in opts and opts is not None and inject == 'bad-option':
                 raise ValueError('bad header option')
             obj.serialize(format=fmt, **{k: v for k, v in opts.items() if k != 'header'})
@@ -214,10 +225,10 @@ def run_case(ctx, sc, req, allowed, variant, rnd):
                 return same_regions(Regions.read(path, format='fits'), parsed)
         except Exception:  # noqa
             return False
-    result = do_write(obj, a, fmt, ow, opts)
+    result = do_write(obj, a, fmt, ow, opts, strict=strict, pathlike=pathlike)
     fs = {'a': classify(a, old, is_new), 'b': classify(b, old, is_new)}
     case = {'request': req, 'injected': inject, 'via': how, 'ext': ext, 'observed': {'result': result, 'fs': fs}, 'allowed': allowed}
-    ctx.case((fmt, ow, ser, dest, content, optsel, inject, how, ext), True)
+    ctx.case((fmt, ow, ser, dest, content, optsel, inject, how, ext, pathlike), True)
     ok = any(result == r and fs == f for r, f in allowed)
     if not ok:
         changed = fs != init_fs(dest)
@@ -290,7 +301,7 @@ def run(ctx):
     allowed = {}
     for st in parse_dump(res.dump_path, only='pc = "done"'):
         r = st['req']
-        key = (r['fmt'], r['ow'], r['ser'], r['dest'], r['content'], r['via'], r['opts'])
+        key = (r['fmt'], r['ow'], r['ser'], r['dest'], r['content'], r['via'], r['opts'], r['path'])
         fs = model_view(st['fs'])
         fs = json.loads(json.dumps(fs).replace('"new"', '"new"'))
         allowed.setdefault(key, [])
@@ -303,7 +314,7 @@ def run(ctx):
         unexercised = set()
         nvar = 9 if quick else 40
         for key, outs in sorted(allowed.items()):
-            req = dict(zip(('fmt', 'ow', 'ser', 'dest', 'content', 'via', 'opts'), key))
+            req = dict(zip(('fmt', 'ow', 'ser', 'dest', 'content', 'via', 'opts', 'path'), key))
             hit = False
             for variant in range(nvar):
                 obs, inject = run_case(ctx, sc, req, outs, variant, rnd)
@@ -386,7 +397,7 @@ def trace_validation(ctx, sc, rnd):
             for kx in pre:
                 if pre[kx]['t'] == 'file':
                     pre[kx]['c'] = 'old'
-            result = do_write(obj, a, fmt, ow, opts)
+            result = do_write(obj, a, fmt, ow, opts, pathlike=bool(rnd.random() < 0.3))
             post = {'a': cls(a), 'b': cls(b)}
             events.append({'fmt': fmt, 'ow': ow, 'ser': ser, 'pre': pre, 'post': post, 'result': result})
     wd = tlc.workdir('c14trace')
